@@ -152,7 +152,7 @@ func (c *Ctx) selectHasCtxDone(sel *ssa.Select, f *ssa.Function) bool {
 		if cs.State != nil && cs.State.Dir == types.RecvOnly && c.isCtxMethodOf(cs.State.Chan, "Done", own) {
 			// the case must return
 			if cs.HasEdge {
-				reach := ReachableFromBlock(f, cs.Edge.B.Succs[cs.Edge.K], PathQ{})
+				reach := ReachableViaEdge(f, cs.Edge, PathQ{})
 				for in := range reach {
 					if _, ok := in.(*ssa.Return); ok {
 						return true
@@ -174,13 +174,15 @@ func (c *Ctx) classifyReconnectOp(rr *RuleRep, m *reconnModel, op blockingOp, ke
 				continue
 			}
 			returns := false
-			for in := range ReachableFromBlock(m.F, cs.Edge.B.Succs[cs.Edge.K], PathQ{BlockInstr: func(i ssa.Instruction) bool { return i == ssa.Instruction(m.Dial) }}) {
+			// (whole paths through the case's edge: a case that only sets a flag tested below the select is followed with it)
+			edge := cs.Edge
+			for in := range ReachableViaEdge(m.F, edge, PathQ{BlockInstr: func(i ssa.Instruction) bool { return i == ssa.Instruction(m.Dial) }}) {
 				if _, ok := in.(*ssa.Return); ok {
 					returns = true
 				}
 			}
 			dialAgain := false
-			if _, ok := CanReach(m.F, cs.Edge.B.Succs[cs.Edge.K].Instrs[0], func(i ssa.Instruction) bool { return i == ssa.Instruction(m.Dial) }, PathQ{}); ok {
+			if _, ok := CanReach(m.F, nil, func(i ssa.Instruction) bool { return i == ssa.Instruction(m.Dial) }, PathQ{MustEdge: &edge}); ok {
 				dialAgain = true
 			}
 			if _, ok := isFieldLoad(c.Resolve(cs.State.Chan), "reconnectClient", "disconnected"); ok && returns && !dialAgain {
